@@ -187,16 +187,24 @@ class C15(Prop):
     theorems = ["C15_select_equivariant", "C15_select_input_order_irrelevant", "C15_ranks_monotone",
                 "C15_ranks_antitone", "C15_kruskal_spearman_monotone_invariant",
                 "C15_spearman_abs_neg", "C15_regression_copy_refuted",
-                "C15_regression_negation_refuted"]
+                "C15_regression_negation_refuted", "C15_kruskal_invariant_under_negation",
+                "C15_colsample_samples_partition"]
     rule = ("metamorphic pairs on the real selectors: a C14 frame (8-60 rows, correlated clusters, NaN, "
             "constant columns, binary / multiclass / continuous targets, all measure / filter lists) and "
             "its re-encoding: one quantitative feature negated or multiplied by 2, 3, 0.5, 7 or 10; the "
             "categories of one qualitative feature renamed (alphabetical order reversed); rows permuted; "
             "columns and feature lists permuted; every column renamed; an exact copy / affine / cubic "
             "function of the target (quantitative) or a relabelled copy (qualitative) added, which must be "
-            "returned.  Non-trivial = at least one feature returned in the original run; distinct = "
+            "returned; only X (rows travel with their index labels: RangeIndex, random ints, strings) or only "
+            "y re-ordered (same data set by label alignment); colsample in {0.5, 0.34, 0.25} with feature "
+            "counts that are not multiples of the number of samples, one or two dtypes, two random.seeds per "
+            "frame (random.shuffle recorded from the real run, every _select_features call observed): copy "
+            "of the target returned by both runs, measured samples = model's samples = a partition of the "
+            "shuffled list.  Non-trivial = at least one feature returned in the original run; distinct = "
             "(kind, task, measures, filters, #returned, outcome)")
-    assumptions = c14.C14.assumptions + [
+    assumptions = [x for x in c14.C14.assumptions if not x.startswith("colsample")] + [
+        "colsample < 1: the shuffled feature order (random.shuffle) is an oracle read back from the real run; "
+        "n_best >= 2 (with n_best = 1 the pre-selection keeps n_best // 2 = 0 features and select returns [])",
         "two selections are compared as lists when no measure is exactly tied and no association equals "
         "thresh_corr exactly; otherwise any order among tied features is accepted (verdict 4)",
         "the copy of the target must be returned unless n_best returned features are exactly as "
